@@ -606,21 +606,43 @@ def run(ctx):
     from sa import paths as P_
     from sa.desugar import desugar
 
-    dpres = desugar(pres.node)
-    al_p = P_.aliases(dpres)
+    from sa.inline import expand as _expand_api
+    from sa.pysrc import Unknown as _Unk
+
+    # canonical form: the predicate (`_is_pptx_package`) and any open-and-validate helper are read in place, so the decision is the
+    # membership test of the main part's content type in the presentation main types, wherever it is written
+    dpres = _expand_api(prog, pres, depth=3)
+    al_p, val_p = P_.aliases(dpres), P_.value_aliases(dpres)
+    env_p = P_.local_env(prog, pres)
     pths = [p for p in P_.enum_paths(dpres.body)]
     probs = []
     decided = 0
+    types_ok = None
+
+    def decision(fs):
+        """(part source, accepted?) from a fact `<part>.content_type in <types>`"""
+        for a in fs:
+            alts = [a] if a[0] != "or" else [x for alt in a[1] for x in alt]
+            for x in alts:
+                if x[0] == "in" and P_.full(x[1], val_p).endswith(".content_type"):
+                    return P_.full(x[1], val_p)[:-len(".content_type")], x[3], x[2]
+        return None
+
     for pth in pths:
         fs = P_.facts(pth, None, al_p)
-        verdict = [a for a in fs if a[0] == "truthy" and a[1].startswith("_is_pptx_package(")]
-        if not verdict:
+        dc = decision(fs)
+        if dc is None:
             if pth.end in ("return",):
-                probs.append("a path returns without asking _is_pptx_package (line %d)" % pth.end_node.lineno)
+                probs.append("a path returns without testing the main part's content type (line %d)" % getattr(pth.end_node, "lineno", 0))
             continue
         decided += 1
-        part_src = verdict[0][1][len("_is_pptx_package("):-1]
-        if verdict[0][2] is False:
+        part_src, accepted, types_src = dc
+        tv = prog.const(ast.parse(P_.full(types_src, val_p), mode="eval").body, api, env_p)
+        if not isinstance(tv, _Unk):
+            ok_t = isinstance(tv, (tuple, list, frozenset, set)) and len(tv) >= 1 and all(
+                isinstance(x, str) and "presentation" in x and x.endswith("main+xml") for x in tv)
+            types_ok = ok_t if types_ok is None else (types_ok and ok_t)
+        if accepted is False:
             exc = None
             if pth.end == "raise" and pth.end_node.exc is not None:
                 e = pth.end_node.exc
@@ -631,38 +653,29 @@ def run(ctx):
                 node = ev[1] if ev[0] in ("stmt",) else None
                 if node is not None:
                     for x in ast.walk(node):
-                        if isinstance(x, ast.Attribute) and P_.norm(x.value, al_p) == part_src and x.attr not in ("content_type",):
+                        if isinstance(x, ast.Attribute) and P_.full(x.value, val_p) == part_src and x.attr not in ("content_type",):
                             probs.append("the part is used (.%s) although it is not a presentation" % x.attr)
         else:
             if pth.end != "return":
                 probs.append("a presentation main part does not lead to a return")
-    # the check must come before any use of the part on every path
+    # the test must come before any use of the part on every path
     for pth in pths:
         seen_check = False
         for ev in pth.events:
             node = ev[1] if ev[0] in ("stmt", "cond") else None
             if node is None:
                 continue
-            if any(isinstance(x, ast.Call) and dotted(x.func) == "_is_pptx_package" for x in ast.walk(node)):
+            if ev[0] == "cond" and decision(P_.atoms(ev[1], True, al_p)) is not None:
                 seen_check = True
                 continue
             if not seen_check and any(isinstance(x, ast.Attribute) and x.attr in ("presentation",) for x in ast.walk(node)):
-                probs.append("the part is used before _is_pptx_package is asked")
-    isp = next((f for f in prog.all_functions() if f.module is api and f.name == "_is_pptx_package"), None)
-    types_ok = False
-    if isp is not None:
-        env = {}
-        for n in walk_own(isp.node):
-            if isinstance(n, ast.Assign) and isinstance(n.targets[0], ast.Name):
-                env[n.targets[0].id] = prog.const(n.value, api, env)
-        rets = [n.value for n in ast.walk(isp.node) if isinstance(n, ast.Return)]
-        if rets and isinstance(rets[0], ast.Compare) and isinstance(rets[0].ops[0], ast.In) and (dotted(rets[0].left) or "").endswith(".content_type"):
-            vals = prog.const(rets[0].comparators[0], api, env)
-            types_ok = isinstance(vals, (tuple, list, frozenset, set)) and len(vals) >= 1 and all(
-                isinstance(x, str) and "presentation" in x and x.endswith("main+xml") for x in vals)
+                probs.append("the part is used before its content type is tested")
+        if not seen_check and pth.end == "return" and pth.end_node.value is not None and any(
+                isinstance(x, ast.Attribute) and x.attr == "presentation" for x in ast.walk(pth.end_node.value)):
+            probs.append("the part is used before its content type is tested")
     if not decided:
-        ctx.error("pptx.api.Presentation", "no path asks _is_pptx_package")
-    elif probs or not types_ok:
+        ctx.error("pptx.api.Presentation", "no path tests the content type of the main part")
+    elif probs or types_ok is not True:
         ctx.violation("R16.2", "api.Presentation", "; ".join(sorted(set(probs))) or "the accepted main content types are not the presentation main types",
                       file=pres.file, line=pres.line)
     else:
@@ -689,11 +702,13 @@ def run(ctx):
     ctm = pk.classes.get("_ContentTypeMap")
     fxm = ctm.methods.get("from_xml") if ctm else None
     both = 0
-    for n in walk_own(fxm.node) if fxm else []:
+    from sa.inline import expand as _exp16
+
+    for n in walk_own(_exp16(prog, fxm, local_only=True)) if fxm else []:   # canonical: a local table-building helper is read in place
         if isinstance(n, ast.Assign) and isinstance(n.value, ast.Call) and dotted(n.value.func) == "CaseInsensitiveDict":
             both += 1
     gi = ctm.methods.get("__getitem__") if ctm else None
-    ds = derefs(gi.node, lambda m: m in ("self._overrides", "self._defaults")) if gi else []
+    ds = derefs(_exp16(prog, gi, local_only=True), lambda m: m in ("self._overrides", "self._defaults")) if gi else []
     if both == 2 and len(ds) == 2 and all(d[3] for d in ds):
         ctx.ok("R16.3", "_ContentTypeMap", sample={"tables": "Override and Default both case-insensitive", "lookups": "each behind its membership test"})
     else:
